@@ -305,3 +305,27 @@ Example C12_ex_expired_invisible :
   fst (exec (snd (exec d 1 1000 [B "zadd"; B "z"; B "9"; B "q"] RNil)) 1 1000 [B "zrange"; B "z"; B "0"; B "-1"] RNil)
     = RArr [RBulk (B "q")].
 Proof. vm_compute. repeat split; reflexivity. Qed.
+
+(* ---------------------------------------------------------------- unconditional (Mem/AllInv.v)
+   The hypothesis [Forall family_keeps_zsets families] of C12_all_families_compose holds: every
+   other family stores only values of its own type, moves a value it found, deletes or edits a
+   deadline (AllInv.families_keep_zsets). *)
+Require Mem.AllInv Mem.Server Mem.Total.
+
+Theorem C12_every_family_keeps_zsets : Forall family_keeps_zsets families.
+Proof. exact AllInv.families_keep_zsets. Qed.
+Print Assumptions C12_every_family_keeps_zsets.
+
+(* after ANY sequence of commands of ANY family, every stored sorted set is a valid AVL tree with
+   consistent dict / len and is not empty *)
+Theorem C12_avl_inv_all_commands : forall (prog : list (Z * Z * list bytes * reply)) (d : db),
+  db_zsets_ok d -> db_zsets_ok (run_cmds prog d).
+Proof. exact AllInv.zsets_all_commands. Qed.
+Print Assumptions C12_avl_inv_all_commands.
+
+(* ... on every numbered database of the server, from the initial state, any connections *)
+Theorem C12_avl_inv_server : forall n prog d k z,
+  In d (Server.sdbs (snd (Total.run_srv (Server.srv_init n) prog))) ->
+  db_get d k = Some (VZSet z) -> zset_inv z /\ zroot z <> Leaf.
+Proof. intros n prog d k z Hd G. exact (AllInv.run_srv_init_value n prog d k (VZSet z) Hd G). Qed.
+Print Assumptions C12_avl_inv_server.
